@@ -2,6 +2,8 @@ import Lean.Data.Json
 import Aqua
 import AquaDrv.Basic
 import AquaDrv.TraceOps
+import AquaDrv.AstJson
+import AquaDrv.ExecOp
 /-! Line-protocol driver of the model: one JSON request per line on stdin, one JSON answer per line. -/
 open Lean Aqua
 
@@ -13,6 +15,7 @@ def dispatch (j : Json) : Json :=
   | "semver" => opSemver j
   | "parse_data" => opParseData j
   | "trace_ops" => opTraceOps j
+  | "exec" => opExec j
   | "ping" => Json.mkObj [("pong", true)]
   | op => Json.mkObj [("error", s!"unknown op {op}")]
 
